@@ -60,7 +60,7 @@ def forest_cases(n):
 
 
 ALLTREES_COUNT = {1: 1, 2: 1, 3: 4, 4: 26, 5: 236, 6: 2752}
-CHUNK = 8
+CHUNK = 4
 
 
 def alltrees_cases(n):
@@ -69,15 +69,20 @@ def alltrees_cases(n):
 
 
 def interleave(*streams):
-    its = [iter(s) for s in streams]
+    """Round robin; a stream given as (iterable, w) contributes w items per round."""
+    its = [(iter(s[0]), s[1]) if isinstance(s, tuple) else (iter(s), 1) for s in streams]
     while its:
         nxt = []
-        for it in its:
-            try:
-                yield next(it)
-                nxt.append(it)
-            except StopIteration:
-                pass
+        for it, w in its:
+            alive = True
+            for _ in range(w):
+                try:
+                    yield next(it)
+                except StopIteration:
+                    alive = False
+                    break
+            if alive:
+                nxt.append((it, w))
         its = nxt
 
 
@@ -93,16 +98,16 @@ def repeat(stream, times):
 
 def cases(tier, seed):
     if tier == "quick":
-        exh = forest_cases(1) + forest_cases(2) + forest_cases(3) + forest_cases(4) + \
-            alltrees_cases(3) + alltrees_cases(4)
-        # two random cases for each exhaustive one; the exhaustive scope is listed first in each round
-        yield from interleave(exh, rand_stream("walk", 40000), rand_stream("wide", 3000),
+        # the smallest scope first (small witnesses are found first), then interleaved streams
+        yield from forest_cases(1) + forest_cases(2) + forest_cases(3)
+        exh = forest_cases(4) + alltrees_cases(3) + alltrees_cases(4)
+        yield from interleave(exh, (rand_stream("walk", 80000), 4), rand_stream("wide", 3000),
                               rand_stream("errors", 2000))
     else:
-        exh = forest_cases(1) + forest_cases(2) + forest_cases(3) + forest_cases(4) + \
-            alltrees_cases(3) + alltrees_cases(4) + alltrees_cases(5) + forest_cases(5)
-        yield from interleave(exh, rand_stream("walk", 2000000), rand_stream("wide", 200000),
-                              rand_stream("errors", 50000), rand_stream("forest6", 200000),
+        yield from forest_cases(1) + forest_cases(2) + forest_cases(3)
+        exh = forest_cases(4) + alltrees_cases(3) + alltrees_cases(4) + alltrees_cases(5) + forest_cases(5)
+        yield from interleave((exh, 4), (rand_stream("walk", 4000000), 60), (rand_stream("wide", 200000), 6),
+                              (rand_stream("errors", 50000), 2), rand_stream("forest6", 200000),
                               rand_stream("alltrees67", 200000))
 
 
@@ -250,12 +255,13 @@ class TreeCtx:
                 "samples": self.samples, "position": self.x, "num_nodes": self.m.num_nodes}
 
 
-def classify_suboptimal(T, geno, alleles, anc_arg, opt):
+def classify_suboptimal(T, geno, alleles, anc_arg, opt, mut_nodes):
     """Mechanism key for a result with more mutations than the optimum.  The D12 mechanism (a sample
     with a missing observation that has children keeps the all-ones Hartigan set) is named only when
     (a) such a sample exists and (b) the real code is optimal on the same tree once exactly those
     samples are turned into non-samples (their observations impose no constraint, so the optimum is
-    unchanged)."""
+    unchanged) and (c) a returned mutation sits strictly below such a sample (that is where the
+    mechanism puts the superfluous changes)."""
     fr = T.fr
     inv = [u for j, u in enumerate(T.samples) if geno[j] == MISSING and fr.kids(u)]
     if not inv:
@@ -268,7 +274,8 @@ def classify_suboptimal(T, geno, alleles, anc_arg, opt):
         g2 = [g for j, g in enumerate(geno) if T.samples[j] not in inv]
         ts2 = to_ts(m2)
         _, muts2 = ts2.at(T.x).map_mutations(np.array(g2, dtype=np.int8), alleles, anc_arg)
-        if len(muts2) == opt:
+        below = any(set(fr.path_up(u)[1:]) & set(inv) for u in mut_nodes)
+        if len(muts2) == opt and below:
             return "map_mutations/not-parsimonious/missing-internal-sample"
     except Exception:
         pass
@@ -343,7 +350,7 @@ def check_call(ctx, T, geno, alleles, anc_arg, how="list"):
             raise AssertionError(f"reference DP {opt} != brute force {b}: {witness}")
     if len(mlist) != opt:
         if len(mlist) > opt:
-            key = classify_suboptimal(T, geno, alleles, anc_arg, opt)
+            key = classify_suboptimal(T, geno, alleles, anc_arg, opt, [u for u, _, _ in mlist])
         else:
             # fewer changes than the optimum cannot reproduce the data; keep it apart from (1)
             key = "map_mutations/fewer-mutations-than-possible"
@@ -476,19 +483,19 @@ def random_calls(ctx, T, rng, ncalls, big=False):
         K = rng.choice([1, 2, 2, 3, 4, 4, 8, 64, 64] if not big else [64, 64, 64, 32, 70])
         alleles = make_alleles(rng, K)
         kmax = min(K, 64)
-        A = rng.choice([1, 2, 2, 3, 3, 4, 6, kmax]) if not big else rng.choice([kmax, kmax, 16])
+        A = rng.choice([1, 2, 2, 2, 3, 3, 3, 4, 6, kmax]) if not big else rng.choice([kmax, kmax, 16])
         A = max(1, min(A, kmax))
         idx = rng.sample(range(kmax), A)
         if kmax == 64 and rng.random() < 0.6 and 63 not in idx:
             idx[rng.randrange(A)] = 63
-        if rng.random() < 0.5:
+        if rng.random() < 0.35:
             geno = evolve(rng, T, idx, rng.choice([0.2, 0.4, 0.6]))
         elif big and ns >= len(idx):
             geno = [idx[j % len(idx)] for j in range(ns)]
             rng.shuffle(geno)
         else:
             geno = [rng.choice(idx) for _ in range(ns)]
-        pm = rng.choice([0, 0, 0.1, 0.3, 0.5, 0.9])
+        pm = rng.choice([0, 0, 0, 0.1, 0.2, 0.3, 0.5, 0.9])
         geno = [MISSING if rng.random() < pm else g for g in geno]  # independent of sample kind
         if all(g == MISSING for g in geno):
             expect_raise(ctx, T, geno, alleles, None, "map_mutations/all-missing-accepted", "all-missing")
@@ -670,7 +677,7 @@ def run_case(case, ctx):
                              time_mode=rng.choice(["ties", "int", "half"]),
                              sample_mode=rng.choice(["young", "all", "any"]))
     else:
-        m = gen.gen_topology(rng, max_nodes=rng.choice([6, 9, 12, 16]), max_bp=rng.choice([0, 1, 3]),
+        m = gen.gen_topology(rng, n=rng.randint(2, rng.choice([6, 9, 12, 16, 24])), max_bp=rng.choice([0, 1, 3]),
                              sample_mode=rng.choice(["young"] * 4 + ["any"] * 4 + ["all"] * 3 + ["few"] * 3 + ["none"]))
     ts = to_ts(m)
     bps = m.breakpoints()
